@@ -5,6 +5,7 @@ CONSTANTS
   NDown = 2
   MaxFaults = 12
   MaxDrops = 0
+  MaxStalls = 0
 SPECIFICATION GenSpec
 INVARIANTS TypeOK PrefixDelivered OnlyOwnSegments OneAcceptPerSession OneCurrent NeverDead
 CHECK_DEADLOCK FALSE
